@@ -405,3 +405,41 @@ def dominated_c_rep(sem, eta):
         if y != tuple(eta) and is_c_rep(sem, y):
             return y
     return None
+
+
+def lex_allpairs(M, v, f):
+    """The lexicographic comparison evaluated with the 'every pair of minimum-cardinality
+    sets' recursion (used only as a *search feature*: cases where this differs from the
+    definition are the region in which the recursion structure matters)."""
+    pats = M._patterns()
+    V = [pats[w] for w in fm.worlds_of(v & M.feasible)]
+    Fs = [pats[w] for w in fm.worlds_of(f & M.feasible)]
+    k = len(M.layers)
+
+    def card(s):
+        return bin(s).count("1")
+
+    def rec(V, Fs, lvl):
+        if not V:
+            return False
+        if not Fs:
+            return True
+        cv = min(card(p[lvl]) for p in V)
+        cf = min(card(p[lvl]) for p in Fs)
+        if cv < cf:
+            return True
+        if cf < cv:
+            return False
+        sv = {p[lvl] for p in V if card(p[lvl]) == cv}
+        sf = {p[lvl] for p in Fs if card(p[lvl]) == cf}
+        for s in sv:
+            for t in sf:
+                if lvl == k - 1:
+                    return False
+                if not rec([p for p in V if p[lvl] == s], [p for p in Fs if p[lvl] == t], lvl + 1):
+                    return False
+        return True
+
+    if k == 0:
+        return False
+    return rec(V, Fs, 0)
